@@ -253,8 +253,11 @@ def classify(dflt, user, got, want):
 def first_run(app, dflt, style):
     cfgdir = dirs.get_config_dir(app)
     path = os.path.join(cfgdir, f"{app}.toml")
-    if os.path.exists(path):
-        os.unlink(path)
+    # the whole configuration directory of the application is gone (a wiped profile), not just the file:
+    # the loader has to create it again (seeded: the file path was resolved once per process and cached)
+    import shutil
+
+    shutil.rmtree(cfgdir, ignore_errors=True)
     dtxt = render(dflt, style)
     probs = []
     try:
